@@ -1,14 +1,16 @@
 (* P_SelectDba.v -- property C10 (every selected value lies in the variable's domain) for the
    DSA model (M_Dsa) and the DBA model (M_Dba), for EVERY schedule of the network semantics Net.v.
 
-   DSA : [dsa_selects_in_domain], full statement, needs only "no declared domain is empty"
-         (with an empty domain random.choice([]) would raise in Python; the model's [choose [] x 0]
-         returns the default 0).
+   DSA : [dsa_selects_in_domain_node] (per node: the node's own domain is not empty) and its
+         corollary [dsa_selects_in_domain] (every declared variable has a non-empty domain); with
+         an empty domain random.choice([]) would raise in Python while the model's [choose [] x 0]
+         returns the default 0.  Non-vacuity: [dsa_selects_in_domain_nonvacuous].
    DBA : the full statement is FALSE of the model ([dba_selects_in_domain_refuted]); what holds for
          every instance and every schedule is [dba_selects_in_domain_partial]:
            - current_value is always None or a member of the domain (unconditional);
-           - a value-selection event of node n carries a member of n's domain unless n raised
-             IndexError (EvRaise n 1) earlier in the run.
+           - a value-selection event of node n carries a member of n's domain unless the run
+             contains an IndexError of n (EvRaise n 1);
+         hence the full statement on crash-free runs ([dba_selects_in_domain_nocrash]).
          See the comment before the DBA section. *)
 From PyDcop Require Import Base Net P_SelectNet M_Mgm M_Dsa P_Mgm.
 
@@ -17,7 +19,6 @@ Section DsaSel.
   Variable d : dcop.
   Variables stop variant prob : Z.
   Variable fo_vc : bool.
-  Hypothesis Hdom : forall n, dom_of d n <> [].
 
   Definition dsaJ (n : node) (s : M_Dsa.dst) : Prop :=
     forall v, ds_value s = Some v -> In v (dom_of d n).
@@ -68,14 +69,14 @@ Section DsaSel.
   Qed.
 
   Lemma evaluate_cycle_ok n s s' o e :
-    dsaJ n s -> evaluate_cycle d stop variant prob fo_vc n s = (s', o, e) ->
+    dom_of d n <> [] -> dsaJ n s -> evaluate_cycle d stop variant prob fo_vc n s = (s', o, e) ->
     dsaJ n s' /\ Forall dsaPev e.
   Proof.
-    intros HJ H. unfold evaluate_cycle in H.
+    intros Hn HJ H. unfold evaluate_cycle in H.
     destruct (zlen (ds_cur s) =? zlen (M_Mgm.nbrs d n)).
     2:{ inversion H; subst. split; [exact HJ|constructor]. }
     destruct (find_arg_optimal _ _ (dom_of d n)) as [vals best] eqn:Ef.
-    destruct (find_arg_optimal_spec _ _ _ _ _ Ef (Hdom n)) as (V1 & V2 & _).
+    destruct (find_arg_optimal_spec _ _ _ _ _ Ef Hn) as (V1 & V2 & _).
     assert (Vin : forall x, In x vals -> In x (dom_of d n)) by (intros x Hx; apply (V2 x Hx)).
     destruct (without_current_ok s vals (dom_of d n) V1 Vin) as (W1 & W2).
     match type of H with (let '(s1, e1) := ?X in _) = _ => destruct X as [s1 e1] eqn:E1 end.
@@ -102,18 +103,18 @@ Section DsaSel.
     apply IH; [|auto]. destruct (lex_better mx (g y, y) b); simpl; auto.
   Qed.
 
-  Lemma optimal_cost_value_in n : In (fst (optimal_cost_value d n)) (dom_of d n).
+  Lemma optimal_cost_value_in n : dom_of d n <> [] -> In (fst (optimal_cost_value d n)) (dom_of d n).
   Proof.
-    unfold optimal_cost_value. pose proof (Hdom n) as H.
+    intros H. unfold optimal_cost_value.
     destruct (dom_of d n) as [|x r]; [tauto|]. cbn [fst].
     apply fold_best_in; simpl; auto.
   Qed.
 
   Lemma dsa_start_ok n s s' o e :
-    dsaJ n s -> dsa_start d stop variant prob fo_vc n s = (s', o, e) -> dsaJ n s' /\ Forall dsaPev e.
+    dom_of d n <> [] -> dsaJ n s -> dsa_start d stop variant prob fo_vc n s = (s', o, e) -> dsaJ n s' /\ Forall dsaPev e.
   Proof.
-    intros HJ H. unfold dsa_start in H. destruct (M_Mgm.nbrs d n) eqn:En.
-    - pose proof (optimal_cost_value_in n) as Ho.
+    intros Hn HJ H. unfold dsa_start in H. destruct (M_Mgm.nbrs d n) eqn:En.
+    - pose proof (optimal_cost_value_in n Hn) as Ho.
       destruct (optimal_cost_value d n) as [v c]. simpl in Ho.
       destruct (dvalue_selection n s v (Some c)) as [s1 e1] eqn:E1.
       destruct (dvalue_selection_ok _ _ _ _ _ _ Ho E1) as [A B].
@@ -122,54 +123,177 @@ Section DsaSel.
       + apply Forall_app; split; auto; repeat constructor.
     - destruct (draw (ds_orc s)) as [x o1].
       match type of H with (let '(s1, e1) := ?X in _) = _ => destruct X as [s1 e1] eqn:E1 end.
-      assert (Hc : In (choose (dom_of d n) x 0) (dom_of d n)) by (apply choose_In; apply Hdom).
+      assert (Hc : In (choose (dom_of d n) x 0) (dom_of d n)) by (apply choose_In; exact Hn).
       destruct (dvalue_selection_ok _ _ _ _ _ _ Hc E1) as [A B].
       rewrite <- En in H.
       destruct (evaluate_cycle d stop variant prob fo_vc n s1) as [[s2 o2] e2] eqn:E2.
-      destruct (evaluate_cycle_ok _ _ _ _ _ A E2) as [A2 B2].
+      destruct (evaluate_cycle_ok _ _ _ _ _ Hn A E2) as [A2 B2].
       inversion H; subst; clear H. split; auto. apply Forall_app; split; auto.
   Qed.
 
   Lemma dsa_recv_ok n s src m s' o e :
-    dsaJ n s -> dsa_recv d stop variant prob fo_vc n s src m = (s', o, e) -> dsaJ n s' /\ Forall dsaPev e.
+    dom_of d n <> [] -> dsaJ n s -> dsa_recv d stop variant prob fo_vc n s src m = (s', o, e) -> dsaJ n s' /\ Forall dsaPev e.
   Proof.
-    intros HJ H. unfold dsa_recv in H. destruct m as [v|g].
+    intros Hn HJ H. unfold dsa_recv in H. destruct m as [v|g].
     - destruct (ds_stopped s).
       + inversion H; subst; clear H. split; [exact HJ|constructor].
       + destruct (mem_key Z.eqb src (ds_cur s)).
         * inversion H; subst; clear H. split; [exact HJ|constructor].
-        * eapply evaluate_cycle_ok; [|exact H]. exact HJ.
+        * eapply evaluate_cycle_ok; [exact Hn| |exact H]. exact HJ.
     - inversion H; subst; clear H. split; [exact HJ|repeat constructor].
+  Qed.
+  (* ownership: a value-selection event emitted by a handler of node n is about n (no hypothesis) *)
+  Definition dsaOwn (n : node) (e : mev) : Prop :=
+    match e with EvValue m _ _ _ => m = n | _ => True end.
+
+  Lemma dvalue_selection_own n s v c : Forall (dsaOwn n) (snd (dvalue_selection n s v c)).
+  Proof.
+    unfold dvalue_selection. cbn [snd].
+    destruct (option_eqb Z.eqb (ds_value s) (Some v)); repeat constructor.
+  Qed.
+
+  Lemma probabilistic_change_own n s best vals :
+    Forall (dsaOwn n) (snd (probabilistic_change prob n s best vals)).
+  Proof.
+    unfold probabilistic_change. destruct (draw (ds_orc s)) as [k o1]. destruct (k <? prob).
+    - destruct (draw o1) as [x o2]. apply dvalue_selection_own.
+    - constructor.
+  Qed.
+
+  Lemma evaluate_cycle_own n s :
+    Forall (dsaOwn n) (snd (evaluate_cycle d stop variant prob fo_vc n s)).
+  Proof.
+    unfold evaluate_cycle.
+    destruct (zlen (ds_cur s) =? zlen (M_Mgm.nbrs d n)); [|constructor].
+    destruct (find_arg_optimal _ _ (dom_of d n)) as [vals best].
+    match goal with |- context [let '(s1, e1) := ?X in _] =>
+      assert (HX : Forall (dsaOwn n) (snd X)); [|destruct X as [s1 e1]] end.
+    { destruct (0 <? _); [apply probabilistic_change_own|].
+      destruct (variant =? 0); [constructor|].
+      destruct (variant =? 1); [|apply probabilistic_change_own].
+      destruct (exists_violated _ _ _ _); [apply probabilistic_change_own|constructor]. }
+    cbn [snd] in HX.
+    destruct (negb (stop =? 0) && (stop <=? ds_cycle s1 + 1)); cbn [snd];
+      apply Forall_app; split; auto; repeat constructor.
+  Qed.
+
+  Lemma dsa_start_own n s : Forall (dsaOwn n) (snd (dsa_start d stop variant prob fo_vc n s)).
+  Proof.
+    unfold dsa_start. destruct (M_Mgm.nbrs d n) eqn:En.
+    - destruct (optimal_cost_value d n) as [v c].
+      pose proof (dvalue_selection_own n s v (Some c)) as H.
+      destruct (dvalue_selection n s v (Some c)) as [s1 e1]. cbn [snd] in *.
+      apply Forall_app; split; auto; repeat constructor.
+    - destruct (draw (ds_orc s)) as [x o1].
+      match goal with |- context [let '(s1, e1) := ?X in _] =>
+        assert (HX : Forall (dsaOwn n) (snd X)) by apply dvalue_selection_own;
+        destruct X as [s1 e1] end.
+      rewrite <- En.
+      pose proof (evaluate_cycle_own n s1) as H2.
+      destruct (evaluate_cycle d stop variant prob fo_vc n s1) as [[s2 o2] e2]. cbn [snd] in *.
+      apply Forall_app; split; auto.
+  Qed.
+
+  Lemma dsa_recv_own n s src m : Forall (dsaOwn n) (snd (dsa_recv d stop variant prob fo_vc n s src m)).
+  Proof.
+    unfold dsa_recv. destruct m as [v|g]; [|repeat constructor].
+    destruct (ds_stopped s); [constructor|].
+    destruct (mem_key Z.eqb src (ds_cur s)); [constructor|]. apply evaluate_cycle_own.
   Qed.
 End DsaSel.
 
-Theorem dsa_selects_in_domain : forall d stop variant prob fo_vc orc sched,
-  (forall n, dom_of d n <> []) ->
-  (forall n v c k, In (EvValue n v c k) (snd (run (dsa_proto d stop variant prob fo_vc orc) sched)) ->
-                   In v (dom_of d n)) /\
-  (forall n v, ds_value (w_st (nodes (fst (run (dsa_proto d stop variant prob fo_vc orc) sched)) n)) = Some v ->
-               In v (dom_of d n)).
+(* network level.  [dom_of d n] is empty for every undeclared id, so the hypothesis is per node:
+   the invariant and the event predicate are conditional on the node's own domain being non-empty
+   (for the other nodes they hold trivially, by ownership of the events). *)
+Definition dsaJc (d : dcop) (n : node) (s : M_Dsa.dst) : Prop := dom_of d n <> [] -> dsaJ d n s.
+Definition dsaPevc (d : dcop) (e : mev) : Prop :=
+  match e with EvValue n v _ _ => dom_of d n <> [] -> In v (dom_of d n) | _ => True end.
+
+Lemma dsa_handler_c d (n : node) (s' : M_Dsa.dst) (evs : list mev) :
+  Forall (dsaOwn n) evs ->
+  (dom_of d n <> [] -> dsaJ d n s' /\ Forall (dsaPev d) evs) ->
+  dsaJc d n s' /\ Forall (dsaPevc d) evs.
 Proof.
-  intros d stop variant prob fo_vc orc sched Hdom.
-  assert (Hinit : forall n, dsaJ d n (p_init (dsa_proto d stop variant prob fo_vc orc) n)).
-  { intros n v Hv. simpl in Hv. discriminate. }
-  assert (Hstart : forall n s s' outs evs, dsaJ d n s ->
+  intros Hown H. split.
+  - intros Hn. apply (H Hn).
+  - apply Forall_forall. intros e He. rewrite Forall_forall in Hown. specialize (Hown e He).
+    destruct e as [m v c k| | |]; simpl; auto. simpl in Hown. subst m. intros Hn.
+    destruct (H Hn) as [_ F]. rewrite Forall_forall in F. exact (F _ He).
+Qed.
+
+Lemma dsa_net_c d stop variant prob fo_vc orc sched :
+  (forall e, In e (snd (run (dsa_proto d stop variant prob fo_vc orc) sched)) -> dsaPevc d e) /\
+  (forall n, dsaJc d n (w_st (nodes (fst (run (dsa_proto d stop variant prob fo_vc orc) sched)) n))).
+Proof.
+  assert (Hinit : forall n, dsaJc d n (p_init (dsa_proto d stop variant prob fo_vc orc) n)).
+  { intros n _ v Hv. simpl in Hv. discriminate. }
+  assert (Hstart : forall n s s' outs evs, dsaJc d n s ->
             p_start (dsa_proto d stop variant prob fo_vc orc) n s = (s', outs, evs) ->
-            dsaJ d n s' /\ outs_ok (fun _ _ (_ : mmsg) => True) n outs /\ Forall (dsaPev d) evs).
+            dsaJc d n s' /\ outs_ok (fun _ _ (_ : mmsg) => True) n outs /\ Forall (dsaPevc d) evs).
   { intros n s s' outs evs HJ H. simpl in H.
-    destruct (dsa_start_ok d stop variant prob fo_vc Hdom n s s' outs evs HJ H) as [A B].
+    pose proof (dsa_start_own d stop variant prob fo_vc n s) as Hown. rewrite H in Hown. cbn [snd] in Hown.
+    destruct (dsa_handler_c d n s' evs Hown) as [A B].
+    { intros Hn. exact (dsa_start_ok d stop variant prob fo_vc n s s' outs evs Hn (HJ Hn) H). }
     split; [exact A|split; [|exact B]]. unfold outs_ok. apply Forall_forall. auto. }
-  assert (Hrecv : forall n s src m s' outs evs, dsaJ d n s -> True ->
+  assert (Hrecv : forall n s src m s' outs evs, dsaJc d n s -> True ->
             p_recv (dsa_proto d stop variant prob fo_vc orc) n s src m = (s', outs, evs) ->
-            dsaJ d n s' /\ outs_ok (fun _ _ (_ : mmsg) => True) n outs /\ Forall (dsaPev d) evs).
+            dsaJc d n s' /\ outs_ok (fun _ _ (_ : mmsg) => True) n outs /\ Forall (dsaPevc d) evs).
   { intros n s src m s' outs evs HJ _ H. simpl in H.
-    destruct (dsa_recv_ok d stop variant prob fo_vc Hdom n s src m s' outs evs HJ H) as [A B].
+    pose proof (dsa_recv_own d stop variant prob fo_vc n s src m) as Hown. rewrite H in Hown. cbn [snd] in Hown.
+    destruct (dsa_handler_c d n s' evs Hown) as [A B].
+    { intros Hn. exact (dsa_recv_ok d stop variant prob fo_vc n s src m s' outs evs Hn (HJ Hn) H). }
     split; [exact A|split; [|exact B]]. unfold outs_ok. apply Forall_forall. auto. }
   split.
-  - intros n v c k Hin.
-    exact (net_inv_events _ (dsaJ d) (fun _ _ _ => True) (dsaPev d) Hinit Hstart Hrecv sched _ Hin).
-  - intros n v Hv.
-    exact (net_inv_state _ (dsaJ d) (fun _ _ _ => True) (dsaPev d) Hinit Hstart Hrecv sched n v Hv).
+  - intros e Hin.
+    exact (net_inv_events _ (dsaJc d) (fun _ _ _ => True) (dsaPevc d) Hinit Hstart Hrecv sched _ Hin).
+  - intros n.
+    exact (net_inv_state _ (dsaJc d) (fun _ _ _ => True) (dsaPevc d) Hinit Hstart Hrecv sched n).
+Qed.
+
+(* per node: the only hypothesis is that THIS node's domain is not empty *)
+Theorem dsa_selects_in_domain_node : forall d stop variant prob fo_vc orc sched n,
+  dom_of d n <> [] ->
+  (forall v c k, In (EvValue n v c k) (snd (run (dsa_proto d stop variant prob fo_vc orc) sched)) ->
+                 In v (dom_of d n)) /\
+  (forall v, ds_value (w_st (nodes (fst (run (dsa_proto d stop variant prob fo_vc orc) sched)) n)) = Some v ->
+             In v (dom_of d n)).
+Proof.
+  intros d stop variant prob fo_vc orc sched n Hn.
+  destruct (dsa_net_c d stop variant prob fo_vc orc sched) as [A B]. split.
+  - intros v c k Hin. exact (A _ Hin Hn).
+  - intros v Hv. exact (B n Hn v Hv).
+Qed.
+
+(* per instance: every DECLARED variable has a non-empty domain *)
+Theorem dsa_selects_in_domain : forall d stop variant prob fo_vc orc sched,
+  (forall n, In n (map fst (d_vars d)) -> dom_of d n <> []) ->
+  (forall n v c k, In n (map fst (d_vars d)) ->
+                   In (EvValue n v c k) (snd (run (dsa_proto d stop variant prob fo_vc orc) sched)) ->
+                   In v (dom_of d n)) /\
+  (forall n v, In n (map fst (d_vars d)) ->
+               ds_value (w_st (nodes (fst (run (dsa_proto d stop variant prob fo_vc orc) sched)) n)) = Some v ->
+               In v (dom_of d n)).
+Proof.
+  intros d stop variant prob fo_vc orc sched Hdom. split.
+  - intros n v c k Hd. apply (dsa_selects_in_domain_node d stop variant prob fo_vc orc sched n (Hdom n Hd)).
+  - intros n v Hd. apply (dsa_selects_in_domain_node d stop variant prob fo_vc orc sched n (Hdom n Hd)).
+Qed.
+
+(* non-vacuity: a 2-variable instance satisfying the hypothesis whose run selects values *)
+Definition nv_dcop : dcop :=
+  M_Mgm.mkD [(0, mkV [0;1] None []); (1, mkV [0;1] None [])]
+            [mkC [0;1] [([0;0],1); ([1;1],1)]] false.
+Definition nv_sched : list (@action) := [Start 0; Start 1; Deliver 0 1; Deliver 1 0].
+
+Example dsa_selects_in_domain_nonvacuous :
+  (forall n, In n (map fst (d_vars nv_dcop)) -> dom_of nv_dcop n <> []) /\
+  (exists v c k, In (EvValue 0 v c k) (snd (run (dsa_proto nv_dcop 0 0 1000 false (fun _ => [1;0;1])) nv_sched))) /\
+  (exists v, ds_value (w_st (nodes (fst (run (dsa_proto nv_dcop 0 0 1000 false (fun _ => [1;0;1])) nv_sched)) 1)) = Some v).
+Proof.
+  split; [|split].
+  - intros n [<-|[<-|[]]]; vm_compute; discriminate.
+  - exists 1, (Some 0), 0. vm_compute. auto.
+  - eexists. vm_compute. reflexivity.
 Qed.
 
 (* ====================================================================== DBA
@@ -272,7 +396,7 @@ Section DbaSel.
       + repeat split. intros HI. constructor; [exact I|].
         destruct (d_can s) eqn:Ec; simpl; [|constructor].
         destruct (negb _); constructor; [|constructor]. simpl.
-        specialize (HI eq_refl). destruct (d_new s) as [v|] eqn:En; [|congruence].
+        specialize (HI Ec). destruct (d_new s) as [v|] eqn:En; [|congruence].
         simpl. apply Wn. reflexivity.
   Qed.
 
@@ -409,3 +533,179 @@ Section DbaSel.
     - split; [exact HW|]. intros HI. split; [repeat constructor|auto].
   Qed.
 End DbaSel.
+
+(* ---------------------------------------------------------------- network level: every schedule *)
+Section DbaSelNet.
+  Variable cs : list M_Dba.constr.
+  Variable ncs : node -> list nat.
+  Variable dom : node -> list Z.
+  Variable infinity maxd : Z.
+  Variable orc0 : node -> list Z.
+
+  Notation P := (dba_proto cs ncs dom infinity maxd orc0).
+  Notation cfg := (config M_Dba.dst dmsg).
+
+  Definition crashed (n : node) (h : list dev) : Prop := In (EvRaise n 1) h.
+
+  (* [h] = the events emitted so far *)
+  Definition sel_inv (cf : cfg) (h : list dev) : Prop :=
+    (forall n, selW dom n (w_st (nodes cf n)))
+    /\ (forall n, selI (w_st (nodes cf n)) \/ crashed n h)
+    /\ (forall e, In e h -> selPev dom e \/ crashed (ev_node e) h).
+
+  Lemma crashed_app_l n h e : crashed n h -> crashed n (h ++ e).
+  Proof. unfold crashed. intros H. apply in_app_iff. now left. Qed.
+
+  (* the effect of one handler call at node [x] on the invariant *)
+  Lemma handler_inv (cf : cfg) h x (w : nwrap M_Dba.dst dmsg) ch e :
+    sel_inv cf h ->
+    selW dom x (w_st w) ->
+    Forall (fun ev => ev_node ev = x) e ->
+    (selI (w_st (nodes cf x)) -> Forall (selPev dom) e /\ (selI (w_st w) \/ In (EvRaise x 1) e)) ->
+    sel_inv (mkConfig (upd_node (nodes cf) x w) ch) (h ++ e).
+  Proof.
+    intros (A & B & C) HW Hown HC. split; [|split]; cbn [nodes].
+    - intros n. unfold upd_node. destruct (Z.eqb n x) eqn:E; [|apply A].
+      apply Z.eqb_eq in E. subst. exact HW.
+    - intros n. unfold upd_node. destruct (Z.eqb n x) eqn:E.
+      + apply Z.eqb_eq in E. subst n. destruct (B x) as [HI|Hc]; [|right; now apply crashed_app_l].
+        destruct (HC HI) as [_ [H|H]]; [now left|]. right. apply in_app_iff. now right.
+      + destruct (B n) as [HI|Hc]; [now left|right; now apply crashed_app_l].
+    - intros ev Hin. apply in_app_iff in Hin as [Hin|Hin].
+      + destruct (C ev Hin) as [H|H]; [now left|right; now apply crashed_app_l].
+      + rewrite Forall_forall in Hown. rewrite (Hown ev Hin).
+        destruct (B x) as [HI|Hc]; [|right; now apply crashed_app_l].
+        destruct (HC HI) as [Hp _]. rewrite Forall_forall in Hp. left. auto.
+  Qed.
+
+  Lemma sel_inv_same (cf : cfg) h x (w : nwrap M_Dba.dst dmsg) ch :
+    sel_inv cf h -> w_st w = w_st (nodes cf x) ->
+    sel_inv (mkConfig (upd_node (nodes cf) x w) ch) (h ++ []).
+  Proof.
+    intros H E. apply handler_inv; auto.
+    - rewrite E. destruct H as (A & _). apply A.
+    - intros HI. split; [constructor|]. left. rewrite E. exact HI.
+  Qed.
+
+  Lemma step_sel_inv cf h a :
+    sel_inv cf h -> let '(cf1, e1) := step P cf a in sel_inv cf1 (h ++ e1).
+  Proof.
+    intros Hinv. pose proof Hinv as (A & B & C). destruct a as [n0|s0 d0]; simpl.
+    - destruct (w_running (nodes cf n0)) eqn:Ru; [rewrite app_nil_r; exact Hinv|].
+      pose proof (dba_start_sel cs ncs dom infinity n0 (w_st (nodes cf n0)) (A n0)) as H.
+      pose proof (dba_start_ok cs ncs dom infinity orc0 n0 (w_st (nodes cf n0))) as G.
+      destruct (M_Dba.dba_start cs ncs dom infinity n0 (w_st (nodes cf n0))) as [[s' o] e].
+      destruct H as [HW HC]. destruct G as [[Fa _] _].
+      apply handler_inv; auto.
+    - destruct (chan cf s0 d0) as [|m q]; [rewrite app_nil_r; exact Hinv|].
+      destruct (w_running (nodes cf d0)) eqn:Ru.
+      + pose proof (dba_recv_sel cs ncs dom infinity maxd d0 (w_st (nodes cf d0)) s0 m (A d0)) as H.
+        pose proof (dba_recv_ok cs ncs dom infinity maxd orc0 d0 (w_st (nodes cf d0)) s0 m) as G.
+        destruct (M_Dba.dba_recv cs ncs dom infinity maxd d0 (w_st (nodes cf d0)) s0 m) as [[s' o] e].
+        destruct H as [HW HC]. destruct G as [[Fa _] _].
+        apply handler_inv; auto.
+      + apply sel_inv_same; auto.
+  Qed.
+
+  Lemma exec_sel_inv sched : forall cf h,
+    sel_inv cf h -> let '(cf2, e2) := exec P cf sched in sel_inv cf2 (h ++ e2).
+  Proof.
+    induction sched as [|a r IH]; intros cf h Hinv; simpl.
+    - rewrite app_nil_r. exact Hinv.
+    - pose proof (step_sel_inv cf h a Hinv) as S. destruct (step P cf a) as [cf1 e1].
+      specialize (IH cf1 (h ++ e1) S). destruct (exec P cf1 r) as [cf2 e2].
+      rewrite app_assoc. exact IH.
+  Qed.
+
+  Lemma init_sel_inv : sel_inv (init P) [].
+  Proof.
+    split; [|split].
+    - intros n. split; intros v Hv; simpl in Hv; discriminate.
+    - intros n. left. intros Hc. simpl in Hc. discriminate.
+    - intros e [].
+  Qed.
+
+  Lemma run_sel_inv sched : sel_inv (fst (run P sched)) (snd (run P sched)).
+  Proof.
+    unfold run. pose proof (exec_sel_inv sched (init P) [] init_sel_inv) as H.
+    destruct (exec P (init P) sched) as [cf evs]. exact H.
+  Qed.
+End DbaSelNet.
+
+(* For every instance, parameter, oracle and schedule:
+   - a value-selection event of node n carries a member of n's domain, unless n raised IndexError
+     (random.choice([]) in improve / on_start, event EvRaise n 1) in the run (the invariant
+     [sel_inv] shows more: the raise is in the history up to the handler call that selects);
+   - current_value (and _new_value) of every computation is None or a member of its domain. *)
+Theorem dba_selects_in_domain_partial : forall cs ncs dom infinity maxd orc0 sched,
+  (forall n v c k, In (EvSelect n v c k) (snd (run (dba_proto cs ncs dom infinity maxd orc0) sched)) ->
+                   In v (dom n) \/ In (EvRaise n 1) (snd (run (dba_proto cs ncs dom infinity maxd orc0) sched))) /\
+  (forall n v, d_value (w_st (nodes (fst (run (dba_proto cs ncs dom infinity maxd orc0) sched)) n)) = Some v ->
+               In v (dom n)) /\
+  (forall n v, d_new (w_st (nodes (fst (run (dba_proto cs ncs dom infinity maxd orc0) sched)) n)) = Some v ->
+               In v (dom n)).
+Proof.
+  intros cs ncs dom infinity maxd orc0 sched.
+  destruct (run_sel_inv cs ncs dom infinity maxd orc0 sched) as (A & B & C).
+  split; [|split].
+  - intros n v c k Hin. exact (C _ Hin).
+  - intros n v Hv. destruct (A n) as [Wv _]. apply Wv. exact Hv.
+  - intros n v Hv. destruct (A n) as [_ Wn]. apply Wn. exact Hv.
+Qed.
+
+(* the full statement on the runs in which no computation raised IndexError *)
+Corollary dba_selects_in_domain_nocrash : forall cs ncs dom infinity maxd orc0 sched,
+  (forall n, ~ In (EvRaise n 1) (snd (run (dba_proto cs ncs dom infinity maxd orc0) sched))) ->
+  (forall n v c k, In (EvSelect n v c k) (snd (run (dba_proto cs ncs dom infinity maxd orc0) sched)) ->
+                   In v (dom n)) /\
+  (forall n v, d_value (w_st (nodes (fst (run (dba_proto cs ncs dom infinity maxd orc0) sched)) n)) = Some v ->
+               In v (dom n)).
+Proof.
+  intros cs ncs dom infinity maxd orc0 sched Hno.
+  destruct (dba_selects_in_domain_partial cs ncs dom infinity maxd orc0 sched) as (A & B & _).
+  split; [|exact B]. intros n v c k Hin. destruct (A n v c k Hin) as [H|H]; [exact H|]. destruct (Hno n H).
+Qed.
+
+(* ---------------------------------------------------------------- the full statement is false
+   Node 0 (domain [5]) has two neighbours 1 and 2; nodes 3 and 4 list 0 as a neighbour but not
+   conversely (ill-formed [ncs]); infinity = 0.  Their dba_ok put 0 in improve mode before 1 and 2
+   start; 0 then postpones ok(1,0), ok(2,0) and, after node 1 moved, ok(1,1).  When its cycle ends
+   the replay of the three postponed ok runs improve twice: the first time nothing is violated
+   (no move, _new_value stays None), the second time every value of the domain is violated:
+   _can_move := True, IndexError (EvRaise 0 1), mode 'improve'.  The next two improve messages
+   make _send_ok select _new_value = None: EvSelect 0 0, and 0 is not in [5]. *)
+Definition rf_cs : list M_Dba.constr :=
+  [ ([0;1], [([5;0],-1)]);
+    ([0;2], [([5;0],-1)]);
+    ([3;0], []);
+    ([4;0], []);
+    ([1;0], [([1;5],-1)]) ].
+Definition rf_ncs (n : node) : list nat :=
+  if n =? 0 then [0;1]%nat else if n =? 1 then [4%nat] else if n =? 2 then [1%nat]
+  else if n =? 3 then [2%nat] else if n =? 4 then [3%nat] else [].
+Definition rf_dom (n : node) : list Z :=
+  if n =? 0 then [5] else if n =? 1 then [0;1] else [0].
+Definition rf_sched : list (@action) :=
+  [Start 0; Start 3; Start 4; Deliver 3 0; Deliver 4 0;
+   Start 1; Start 2; Deliver 1 0; Deliver 2 0;
+   Deliver 0 1; Deliver 0 1; Deliver 1 0; Deliver 1 0;
+   Deliver 0 2; Deliver 2 0;
+   Deliver 0 1; Deliver 1 0;
+   Deliver 0 2; Deliver 0 2; Deliver 2 0; Deliver 2 0].
+
+Theorem dba_selects_in_domain_refuted :
+  exists cs ncs dom infinity maxd orc0 sched n v c k,
+    In (EvSelect n v c k) (snd (run (dba_proto cs ncs dom infinity maxd orc0) sched)) /\ ~ In v (dom n).
+Proof.
+  exists rf_cs, rf_ncs, rf_dom, 0, 100, (fun _ => []), rf_sched, 0, 0, (Some 0), 2.
+  split.
+  - assert (E : snd (run (dba_proto rf_cs rf_ncs rf_dom 0 100 (fun _ => [])) rf_sched) =
+                [EvSelect 0 5 None 0; EvSelect 3 0 None 0; EvSelect 4 0 None 0; EvSelect 1 0 None 0;
+                 EvSelect 2 0 None 0; M_Dba.EvCycle 1 1; EvSelect 1 1 (Some 0) 1; M_Dba.EvCycle 0 1;
+                 EvRaise 0 1; M_Dba.EvCycle 2 1; M_Dba.EvCycle 0 2; EvSelect 0 0 (Some 0) 2; EvRaise 0 1])
+      by (vm_compute; reflexivity).
+    rewrite E. simpl. tauto.
+  - simpl. intros [H|[]]. discriminate.
+Qed.
+
+
